@@ -89,7 +89,10 @@ def parse_tables(lines):
     return t
 
 
-def compose(hop, s, d, fuel=8):
+COMPOSE_FUEL = 8
+
+
+def compose(hop, s, d, fuel=COMPOSE_FUEL):
     """route s -> d from the real per-rank next-hop tables; hop[me][d]"""
     r, cur = [], s
     for _ in range(fuel):
@@ -102,7 +105,7 @@ def compose(hop, s, d, fuel=8):
 
 
 def kinds(node, s, route):
-    return [node[a] != node[b] for a, b in zip([s] + route, route)]
+    return [node[a] != node[b] for a, b in zip([s] + route, route)]   # callers guarantee ranks in range
 
 
 def shape_failures(sch, N, p, s, d, route, node, loc, where):
@@ -110,8 +113,11 @@ def shape_failures(sch, N, p, s, d, route, node, loc, where):
     f = []
     n = N * p
     if any(h < 0 or h >= n for h in route):
-        return [(f"{where}-hop-out-of-range", f"hop outside [0,{n})")]
+        return [(f"{where}-hop-out-of-range", f"next hop outside the communicator [0,{n})")]
     if not route or route[-1] != d:
+        if where == "tables" and len(route) >= COMPOSE_FUEL:
+            # iterating the real next_hop tables never reaches d (self-loop or cycle)
+            return [(f"{where}-route-does-not-terminate", f"iterating next_hop does not reach the destination within {COMPOSE_FUEL} hops")]
         f.append((f"{where}-not-at-dest", "route does not end at the destination"))
     k = kinds(node, s, route)
     if sch == "NONE" and route != [d]:
@@ -129,7 +135,13 @@ def shape_failures(sch, N, p, s, d, route, node, loc, where):
     return f
 
 
+def in_range(node, s, route):
+    return all(0 <= x < len(node) for x in [s] + list(route))
+
+
 def offpairs(node, s, route):
+    if not in_range(node, s, route):      # reported separately as <where>-hop-out-of-range
+        return []
     return [(a, b) for a, b in zip([s] + route, route) if node[a] != node[b]]
 
 
@@ -255,6 +267,7 @@ def check_tables(res, N, p, envsch, sr, M, model_ok):
             if t.get("isl") != isl or t.get("iss") != iss:
                 res.corr_failures.append({"relation": "is_local/is_strided consistent with node_id/local_id", "what": f"rank {me}", "case": dict(case0, rank=me)})
     # ---- oracle: theorem conclusions on the routes composed from the real tables
+    n_before = len(res.oracle_failures)
     routes = {sch: {} for sch in SCHEMES}
     for sch in SCHEMES:
         for s in range(n):
@@ -269,6 +282,11 @@ def check_tables(res, N, p, envsch, sr, M, model_ok):
                                               "case": dict(case0, scheme=sch, s=s, d=d)})
     for sig, what, extra in global_pair_failures(N, p, routes, node, "tables"):
         res.oracle_failures.append({"what": what, "signature": sig, "case": dict(case0, **{k: (list(v) if isinstance(v, tuple) else v) for k, v in extra.items()})})
+    if len(res.oracle_failures) > n_before:
+        # the next-hop tables of this layout already violate the property (possibly hops outside the communicator or
+        # routing loops): real traffic over them is undefined behaviour / unbounded, so the wire part is not attempted
+        res.count("wire-skipped: tables of the layout already fail")
+        return None
     return node, loc
 
 
@@ -321,6 +339,16 @@ def check_wire(res, N, p, sch, sr, lo, hi, M, model_ok, node, loc, wire_routes):
             res.sample({"N": N, "p": p, "scheme": sch, "s": s, "d": d, "wire": case["wire"], "model_route": M["routes"][sch][s][d] if model_ok else None})
 
 
+def guarded(res, case, fn, *a):
+    """an exception while judging one job must not discard the failures already collected for the others"""
+    try:
+        return fn(*a)
+    except Exception as ex:  # reported, never swallowed
+        import traceback
+        res.corr_failures.append({"relation": "check-machinery", "what": "exception while judging this job: " + repr(ex)[:200] + " | " + traceback.format_exc()[-300:], "case": case})
+        return None
+
+
 def run(tier, seed, model_ok=True):
     res = C.Result()
     res.rule = RULE
@@ -338,7 +366,7 @@ def run(tier, seed, model_ok=True):
     # ---- (1) tables
     nl = {}
     for (N, p), (envsch, sr) in zip(lays, C.pmap(lambda L: run_tables(binary, *L), lays)):
-        r = check_tables(res, N, p, envsch, sr, M.get((N, p)), model_ok)
+        r = guarded(res, {"N": N, "p": p, "kind": "tables"}, check_tables, res, N, p, envsch, sr, M.get((N, p)), model_ok)
         if r:
             nl[(N, p)] = r
     # ---- (2) wire
@@ -357,7 +385,8 @@ def run(tier, seed, model_ok=True):
     for j, sr in zip(jobs, outs):
         N, p, sch, lo, hi = j
         node, loc = nl[(N, p)]
-        check_wire(res, N, p, sch, sr, lo, hi, M.get((N, p)), model_ok, node, loc, wire.setdefault((N, p), {}).setdefault(sch, {}))
+        guarded(res, {"N": N, "p": p, "kind": "wire", "scheme": sch, "lo": lo, "hi": hi}, check_wire,
+                res, N, p, sch, sr, lo, hi, M.get((N, p)), model_ok, node, loc, wire.setdefault((N, p), {}).setdefault(sch, {}))
     for (N, p), by in wire.items():
         node, loc = nl[(N, p)]
         for sig, what, extra in global_pair_failures(N, p, by, node, "wire"):
